@@ -10,6 +10,8 @@ from vlib.runner import Part, Violation
 
 PROPERTY = "C03"
 LEVEL = "exploration"
+# parts repeated in a child interpreter started with -O and with warnings turned into errors (vlib/runner.py, MODES)
+MODE_PARTS = {"OW": ['all-cut-subsets', 'after-a-history']}
 RULE = ("scenario = (items preloaded in the memcached model, client configuration, one call); its reply stream is "
         "recorded with unsplit delivery, then the same scenario is re-run with the stream cut at given positions "
         "(optionally an EINTR before every piece, reported in rotation as InterruptedError, as a socket wrapper's own OSError subclass with errno EINTR, and as ssl.SSLError with errno EINTR). Corpus: get/gets/gat/gats hits and misses; values containing CR LF, "
